@@ -525,33 +525,39 @@ def token(ctx: Ctx, rep: Report) -> None:
     mb = ctx.fn(RWM + '.get_new_results')
     g2 = ctx.cfg(mb)
     rep.seen(mb.qualname)
-    # the batch handed out is read (by reference or copied) before the
-    # attribute is re-pointed at a fresh empty list, on every path, and the
-    # returned value derives from that read
+    # Hand-off by reference.  deposit_result appends to self.fresh_results
+    # on the incoming thread while this method runs on the main thread,
+    # without a lock.  That is only complete if the batch handed out is the
+    # very list object the other thread appends to, captured before the
+    # attribute is re-pointed at a fresh list: a result deposited between
+    # the two statements then still lands in the batch.  A copy
+    # (`list(...)`, a slice, sorted(...)) loses exactly that result.
     def rs(n) -> bool:
         return isinstance(n.stmt, ast.Assign) and norm(
             n.stmt.targets[0]) == 'self.fresh_results' and norm(
             n.stmt.value) in ('[]', 'list()')
-
-    def rd(n) -> bool:
-        return isinstance(n.stmt, (ast.Assign, ast.Return)) and not rs(n) \
-            and n.stmt.value is not None and any(
-                norm(x) == 'self.fresh_results'
-                for x in ast.walk(n.stmt.value))
-    reads = g2.where(rd)
     after = g2.reach(list(g2.ids(rs)), include_starts=False)
     rets = [n for n in g2.nodes if isinstance(n.stmt, ast.Return)]
-    derived = bool(rets) and all(
-        n.stmt.value is not None and 'self.fresh_results' in ctx.rd(
-            mb).closure(n, n.stmt.value)[0] for n in rets)
+    by_ref = bool(rets)
+    for n in rets:
+        v = n.stmt.value
+        defs = ctx.rd(mb).reaching(n, v.id) if isinstance(
+            v, ast.Name) else []
+        by_ref = by_ref and bool(defs) and all(
+            d.kind == 'assign' and d.value is not None
+            and norm(d.value) == 'self.fresh_results'
+            and d.node.id not in after for d in defs)
     rep.count()
     rep.check(
-        bool(reads) and g2.must(rs) and derived
-        and not any(n.id in after for n in reads), T,
+        g2.must(rs) and by_ref, T,
         'WorkerMailbox.get_new_results', mb.path, mb.lineno,
-        'fresh results are reset once read (batches are disjoint)',
-        'fresh_results is not reset after being read: next() would return '
-        'duplicates', key='fresh-reset',
+        'the batch is handed out by reference and the attribute re-pointed '
+        'at a fresh list afterwards (batches disjoint and jointly complete)',
+        'get_new_results does not hand out the live fresh_results list by '
+        'reference before re-pointing the attribute at a fresh list: '
+        'without the reset next() returns duplicates; with a copy, a result '
+        'deposited by the incoming thread between the copy and the reset '
+        'is lost', key='fresh-reset',
     )
     dp = ctx.fn(RWM + '.deposit_result')
     rep.seen(dp.qualname)
